@@ -502,8 +502,46 @@ func c04Reeval(w *run.Worker, d dctx) {
 	}
 }
 
+// len() and `in` over every value shape
+func c04LenIn(w *run.Worker, d dctx) {
+	I, S, Id := rt.Int, rt.Str, rt.Id
+	vals := []nodeFn{
+		func() *rt.Node { return rt.List() }, func() *rt.Node { return rt.List(I(1), S("a"), rt.Nil(), rt.List(I(1)), rt.Map(S("k"), I(1)), rt.Float(1.5), rt.Bool(true)) },
+		func() *rt.Node { return rt.Map() }, func() *rt.Node { return rt.Map(S("a"), I(1), S("é"), rt.List()) },
+		func() *rt.Node { return S("") }, func() *rt.Node { return S("abc") }, func() *rt.Node { return S("héé") }, func() *rt.Node { return S("日本語x") },
+		func() *rt.Node { return I(5) }, func() *rt.Node { return rt.Nil() }, func() *rt.Node { return rt.Bool(true) }, func() *rt.Node { return rt.Float(2.5) },
+		func() *rt.Node { return rt.Slice(rt.List(I(1), I(2), I(3)), I(1), nil, nil, false) },
+	}
+	needles := []nodeFn{
+		func() *rt.Node { return I(1) }, func() *rt.Node { return S("a") }, func() *rt.Node { return S("é") }, func() *rt.Node { return S("") }, func() *rt.Node { return rt.Nil() },
+		func() *rt.Node { return rt.List(I(1)) }, func() *rt.Node { return rt.Map(S("k"), I(1)) }, func() *rt.Node { return rt.Float(1.5) }, func() *rt.Node { return rt.Bool(true) }, func() *rt.Node { return S("本") },
+		func() *rt.Node { return I(2) }, func() *rt.Node { return rt.List() },
+	}
+	for _, v := range vals {
+		if w.Take() {
+			stmts := []*rt.Node{rt.Assign("=", Id("v"), v()), rt.Call("p", rt.Call("len", Id("v")), rt.Call("len", v()))}
+			if d.v2 {
+				stmts = []*rt.Node{rt.Assign("=", Id("v"), v()), rt.Call("p", Id("v"))}
+			}
+			p := &Prog{Scripts: map[string][]*rt.Node{"s.p": stmts}, Main: "s.p", Point: PointSpec{Meas: "m"}}
+			w.Eval()
+			c04Report(w, d, "len", p, d.diff(p), "")
+		}
+		for _, n := range needles {
+			if !w.Take() {
+				continue
+			}
+			stmts := []*rt.Node{rt.Assign("=", Id("v"), v()), rt.Assign("=", Id("x"), n()), rt.Call("p", rt.In(Id("x"), Id("v"))), rt.Call("p", rt.In(n(), v()))}
+			p := &Prog{Scripts: map[string][]*rt.Node{"s.p": stmts}, Main: "s.p", Point: PointSpec{Meas: "m"}}
+			w.Eval()
+			c04Report(w, d, "in", p, d.diff(p), "")
+		}
+	}
+}
+
 func c04Run(w *run.Worker) {
 	d := dctx{id: "C04", diff: Differential}
+	c04LenIn(w, d)
 	c04Reeval(w, d)
 	c04Paths(w, d)
 	c04Alias(w, d)
@@ -544,7 +582,7 @@ func init() {
 		Rule: "(A) the complete slice table: every list and ASCII string of length 0..5 (thorough 0..6) x (start,end,step) each omitted or in -8..8 (thorough -10..10) or +-(2^63-1) or -2^63, " +
 			"bounds as literals and as variables, object as identifier and as literal, with and without the second colon; non-ASCII strings with a byte-or-rune disjunctive oracle; " +
 			"(B) every index read / write / compound-write path of depth <=3 over 6 nested shapes x 22 keys (in range, negative, -len, len, 2^32, +-2^63 extremes, strings, missing key, float, nil, bool); " +
-			"(C) every sequence of <=4 operations from 13 aliasing/mutation/snapshot operations; (D) load_json round trips; (E) 6 nested collection literals x 8 deep writes evaluated repeatedly (for-in body, three-clause body inside an if, twice in straight-line code with an alias in between) and the loaded script run twice; all against the reference (Python slice semantics, shared references, add_key snapshots)",
+			"(C) every sequence of <=4 operations from 13 aliasing/mutation/snapshot operations; (D) load_json round trips; (F) len() and `in` over 13 value shapes x 12 needles (byte length of non-ASCII strings, nested elements); (E) 6 nested collection literals x 8 deep writes evaluated repeatedly (for-in body, three-clause body inside an if, twice in straight-line code with an alias in between) and the loaded script run twice; all against the reference (Python slice semantics, shared references, add_key snapshots)",
 		Assumptions: []string{"encoding/json is the trusted base for the JSON text of snapshots", "unspecified cells: nil-valued slice bounds, indexing through a missing map key"},
 		Run:            c04Run,
 		Replay:         c04Replay,
